@@ -347,6 +347,27 @@ func Run(c Cfg, choose Chooser, maxLabels int) Result {
 					if !c.OneWay && a.Live() && !streamed[a.Index] && (c.RetryOn || c.N > 0) { // reset + a frame of the attempt still in flight
 						opts = append(opts, fmt.Sprintf("XL%d:%s:10", a.Index, types.StreamConnectionFailed), fmt.Sprintf("XL%d:%s:00", a.Index, types.StreamConnectionTermination))
 					}
+					// [proxy10] events delivered while the worker sleeps in doRetry's back-off (the worker is held at a yield site of
+					// pkg/proxy), and the reset of a streamed response before its head is forwarded
+					if !c.OneWay && a.Live() && !streamed[a.Index] && c.Route == "c" {
+						for _, trig := range BOTriggers {
+							for _, ev := range BOEvents {
+								opts = append(opts, fmt.Sprintf("ZB:%c%d%s:%s", trig[0], a.Index, trig[1:], ev))
+							}
+							if (c.Data || c.Trailers) && trig[0] != 'P' {
+								opts = append(opts, fmt.Sprintf("ZB:%c%d%s:DS", trig[0], a.Index, trig[1:]))
+							}
+							if !c.TryTimeout && !c.LongGlobal && hasGT {
+								for _, ev := range BOTimerEvents {
+									opts = append(opts, fmt.Sprintf("ZB:%c%d%s:%s", trig[0], a.Index, trig[1:], ev))
+								}
+							}
+						}
+						for _, r := range []string{types.StreamConnectionTermination, types.StreamRemoteReset} {
+							opts = append(opts, fmt.Sprintf("ZS%d:200:10:h:%s", a.Index, r), fmt.Sprintf("ZS%d:200:11:f:%s", a.Index, r))
+						}
+						opts = append(opts, fmt.Sprintf("ZS%d:503:10:h:%s", a.Index, types.StreamConnectionFailed))
+					}
 					if !c.OneWay && a.Live() && streamed[a.Index] && ex.Held() { // the streamed body ends
 						opts = append(opts, fmt.Sprintf("E%d", a.Index))
 					}
@@ -382,6 +403,12 @@ func Run(c Cfg, choose Chooser, maxLabels int) Result {
 				opts = append(opts, "PT")
 				if ptIdx0 >= 0 && !streamed[ptIdx0] && ex.UpstreamAttempts()[ptIdx0].Live() {
 					opts = append(opts, fmt.Sprintf("PL%d:10", ptIdx0), fmt.Sprintf("PL%d:01", ptIdx0))
+					// [proxy10] the per-try timer gives the attempt up, an event lands in the back-off that follows
+					if c.Route == "c" {
+						for _, ev := range []string{"TM418", "TMs403", "DR", "CC", "HG"} {
+							opts = append(opts, fmt.Sprintf("ZB:P%d:%s", ptIdx0, ev))
+						}
+					}
 				}
 			} else if hasGT && !c.LongGlobal && (!hasPT || gt+timerGap < pt) {
 				opts = append(opts, "GT")
@@ -419,6 +446,34 @@ func Run(c Cfg, choose Chooser, maxLabels int) Result {
 		case lb == "HG":
 			f.HostsDown("c")
 			continue
+		case strings.HasPrefix(lb, "ZB:"):
+			_, gt, _, hasGT := deadlines()
+			gd := time.Duration(0)
+			if hasGT && !c.LongGlobal {
+				gd = gt
+			}
+			var k int
+			fmt.Sscanf(lb[4:], "%d", &k)
+			r := RunBO(f, ex, c, lb, gd)
+			tm = append(tm, r.TM...)
+			plannedSleep = r.Planned
+			if r.Skewed {
+				res.Skewed = true
+			}
+			if lb[3] == 'P' {
+				ptConsumedFor = k
+			}
+			if strings.HasSuffix(lb, ":GT") || strings.HasSuffix(lb, ":GSm") || strings.HasSuffix(lb, ":GSs") {
+				gtConsumed = true
+			}
+			BOHeld(lb, r.Held)
+		case strings.HasPrefix(lb, "ZS"):
+			var k int
+			fmt.Sscanf(lb[2:], "%d", &k)
+			streamed[k] = true
+			if !RunSR(f, ex, lb) {
+				res.Skewed = true // the worker was not caught before the head went downstream
+			}
 		case strings.HasPrefix(lb, "PL"):
 			var k int
 			var dt string
@@ -547,13 +602,13 @@ func Run(c Cfg, choose Chooser, maxLabels int) Result {
 			}
 			// the per-try deadline pending before the label passed during it and MOSN reset that attempt: the timer
 			// fired inside the action or its settle (scheduler stall), not at a PT label
-			if hasPT0 && lb != "PT" && !strings.HasPrefix(lb, "PL") && pt0 <= now+2*time.Millisecond && strings.Contains(","+Canon(ex.Trace())+",", fmt.Sprintf(",ur:%d,", ptIdx0)) {
+			if hasPT0 && lb != "PT" && !strings.HasPrefix(lb, "PL") && !strings.HasPrefix(lb, "ZB:P") && pt0 <= now+2*time.Millisecond && strings.Contains(","+Canon(ex.Trace())+",", fmt.Sprintf(",ur:%d,", ptIdx0)) {
 				res.Skewed = true
 				break
 			}
 			// a PT label fires the per-try timer of attempt ptIdx0 only: a reset of a later attempt right after it means
 			// the next attempt's timer fired inside this label as well (the label took longer than a per-try timeout)
-			if hasPT0 && (lb == "PT" || strings.HasPrefix(lb, "PL")) {
+			if hasPT0 && (lb == "PT" || strings.HasPrefix(lb, "PL") || strings.HasPrefix(lb, "ZB:P")) {
 				late := false
 				for _, tk := range strings.Split(Canon(ex.Trace()), ",") {
 					var k int
